@@ -23,6 +23,7 @@ RULE = ('cases = one segment with parameters t (generic segments at random and e
         'control2 == end heading into each of 8 directions with dyadic and non-dyadic coordinates; t as python float and as '
         'numpy.float64; arcs circular and elliptical) plus similarity-transform relations (rotation, scaling, reversal, translation) '
         'and paths; distinct by spec + parameters; non-trivial if an oracle verdict was reached')
+RULE += '; triple points at either end, hooks, closed singular cubics, arcs whose radii are scaled up, paths with direction-smooth joints of unequal speed (Path.curvature judged there)'
 ASSUMPTIONS = ['vt/ref/exact.py; "regular point" = |B\'(t)| > 1e-6 * curve size; points with 0 < |B\'| <= 1e-6*size are skipped as ill-conditioned',
                'at an exactly singular interior point (cusp) either sign, or a ValueError saying the tangent is not well defined, is accepted',
                'curvature is judged at regular points only (statement)']
